@@ -15,28 +15,53 @@ import copy
 import numpy as np
 
 from pv import core
+from pv.gen import c09_axes as AX
 from pv.ref import c09_oracle as O
 
 
-def gen_grid(rng):
-    ngx, ngy = int(rng.integers(2, 4)), int(rng.integers(2, 4))
-    size = int(rng.choice([7, 9, 11, 13]))
+def gen_grid(case):
+    """nx and ny drawn independently from 1..6 (single row/column, strongly non-square in both senses),
+    irregular spacing, grid far from / across the origin, unsorted input order, PSF data of any magnitude
+    and memory layout."""
+    rng = case.rng
+    ngx, ngy = int(rng.integers(1, 7)), int(rng.integers(1, 7))
+    if ngx == 1 and ngy == 1:
+        ngx = 2
+    case.note('axis:grid:' + ('single_row_or_col' if min(ngx, ngy) == 1 else
+                              'nx>=ny+2' if ngx >= ngy + 2 else 'ny>=nx+2' if ngy >= ngx + 2 else 'squareish'))
+    size = int(rng.choice([5, 7, 9, 11]))
     over = int(rng.choice([1, 2, 4]))
-    xg = np.sort(rng.choice(np.arange(0, 200, 10), ngx, replace=False)).astype(float)
-    yg = np.sort(rng.choice(np.arange(0, 200, 10), ngy, replace=False)).astype(float)
-    pos = [(x, y) for y in yg for x in xg]
+
+    def axis(n):
+        if rng.random() < 0.5:
+            g = np.sort(rng.choice(np.arange(0, 300, 10), n, replace=False)).astype(float)
+        else:                                        # irregular, non-integer spacing
+            g = np.cumsum(rng.uniform(3.0, 80.0, n)).round(2)
+        off = float(rng.choice([0.0, 0.0, -150.0, 1.0e4, -3.3e3]))
+        return g + off
+    xg, yg = axis(ngx), axis(ngy)
+    pos = [(float(x), float(y)) for y in yg for x in xg]
     order = rng.permutation(len(pos))            # the input grid need not be sorted
     yy, xx = np.mgrid[0:size, 0:size] - size // 2
     psfs = []
-    for (x, y) in pos:
-        s = 1.0 + 0.004 * x + 0.002 * y
-        q = 0.7 + 0.001 * y
+    for i, (x, y) in enumerate(pos):
+        s = 0.8 + 0.15 * (i % 5) + 0.05 * (i // 5)
+        q = 0.6 + 0.07 * (i % 6)
         p = np.exp(-(xx ** 2 + (yy / q) ** 2) / (2 * (s * over) ** 2)) + rng.uniform(0, 0.01, (size, size))
         psfs.append(p / p.sum() * over ** 2)
-    data = np.array(psfs)[order]
-    gpos = [pos[i] for i in order]
-    meta = {'grid_xypos': gpos, 'oversampling': over}
-    return data, meta, xg, yg, size, over
+    sc = AX.scale(case, 'magnitude_gridded')
+    lay = AX.layout(case, 'layout_gridded')
+    data = np.array(psfs)[order] * sc
+    if rng.random() < 0.15:
+        data = data.astype(np.float32)
+        case.note('axis:dtype_gridded:float32')
+    gform = AX.seq_form(case, 'grid_xypos_form')
+    gpos = gform(np.array([pos[i] for i in order]))
+    meta = {'grid_xypos': gpos, 'oversampling': over if rng.random() < 0.7 else (over, over)}
+
+    def mkdata():
+        return lay(data)
+    return mkdata, data, meta, xg, yg, size, over
 
 
 def run(case):
@@ -56,12 +81,13 @@ def run(case):
 
 def _history(case):
     rng = case.rng
-    data, meta, xg, yg, size, over = gen_grid(rng)
+    mkdata, data, meta, xg, yg, size, over = gen_grid(case)
+    xform = AX.seq_form(case, 'eval_xy_form')
 
     def fresh(state):
         from astropy.nddata import NDData
         from photutils.psf import GriddedPSFModel
-        m = GriddedPSFModel(NDData(data.copy(), meta=copy.deepcopy(meta)), flux=state['flux'], x_0=state['x_0'],
+        m = GriddedPSFModel(NDData(mkdata(), meta=copy.deepcopy(meta)), flux=state['flux'], x_0=state['x_0'],
                             y_0=state['y_0'], fill_value=state['fill_value'])
         if state['oversampling'] is not None:
             m.oversampling = state['oversampling']
@@ -84,15 +110,23 @@ def _history(case):
         if used and r < 0.55:
             return used[int(rng.integers(0, len(used)))]
         r = rng.random()
-        if r < 0.2:                                  # exactly on a grid node
+        if r < 0.15:                                 # exactly on a grid node
             return float(rng.choice(xg)), float(rng.choice(yg))
-        if r < 0.35:                                 # outside the grid
-            return float(xg[0] - rng.uniform(1, 30)), float(yg[-1] + rng.uniform(1, 30))
-        return float(rng.uniform(xg[0], xg[-1])), float(rng.uniform(yg[0], yg[-1]))
+        if r < 0.3:                                  # outside the grid (any side)
+            return (float(rng.choice([xg[0] - rng.uniform(1, 30), xg[-1] + rng.uniform(1, 30)])),
+                    float(rng.choice([yg[0] - rng.uniform(1, 30), yg[-1] + rng.uniform(1, 30),
+                                      rng.uniform(yg[0], yg[-1] + 1e-9)])))
+        # a uniformly chosen CELL (so that many different cells are visited), then a point inside it
+        def inside(g):
+            if len(g) == 1:
+                return float(g[0] + rng.uniform(-5, 5))
+            i = int(rng.integers(0, len(g) - 1))
+            return float(rng.uniform(g[i], g[i + 1]))
+        return inside(xg), inside(yg)
 
     state0 = dict(flux=1.0, x_0=0.0, y_0=0.0, fill_value=0.0, oversampling=None)
     pool = [(fresh(state0), dict(state0), 'original')]
-    nsteps = int(rng.integers(12, 36))
+    nsteps = int(rng.integers(15, 45))
     log = []
     nevals = 0
     for _ in range(nsteps):
@@ -142,9 +176,13 @@ def _history(case):
             log.append(['evaluate', k])
         else:
             half = size / over / 2 + 1
-            if rng.random() < 0.5:
-                x = st['x_0'] + rng.uniform(-half, half, 15)
-                y = st['y_0'] + rng.uniform(-half, half, 15)
+            rr = rng.random()
+            if rr < 0.15:                            # a single scalar point
+                x = float(st['x_0'] + rng.uniform(-half, half))
+                y = float(st['y_0'] + rng.uniform(-half, half))
+            elif rr < 0.55:
+                x = xform(st['x_0'] + rng.uniform(-half, half, 15))
+                y = xform(st['y_0'] + rng.uniform(-half, half, 15))
             else:
                 yy, xx = np.mgrid[0:7, 0:7]
                 x = xx + np.floor(st['x_0']) - 3.0
